@@ -135,6 +135,19 @@ func runC03(r *run) {
 			emitBan("filter", f, "{% import \"ml.tpl\" zx %}{{ zx() }}", map[string]string{"ml.tpl": "{% macro zx() export %}" + use + "{% endmacro %}"}, "", false)
 			emitBan("filter", f, "{% set nm = \"sub.tpl\" %}{% include nm %}", map[string]string{"sub.tpl": use}, "", true)
 		}
+		// the ban check belongs to the filter syntax, not to the places it is known to be written
+		// in: spellings that are (today) syntax errors or unusual must not compile either
+		for _, f := range append([]string{"verifprobe"}, filters[:8]...) {
+			for _, tpl := range []string{"{{ (zz)|F }}", "{{ (1 + 2)|F }}", "{% if (zz)|F %}y{% endif %}", "{% for a in (zz)|F %}{% endfor %}", "{{ zz.y|F }}", "{{ zz.0|F }}",
+				"{{ [1, 2]|F }}", "{{ -1|F }}", "{{ not zz|F }}", "{{ zz|lower:(\"a\"|F) }}", "{{ zz|lower:\"a\"|F }}", "{{ \"a\"|F|F }}", "{{ zz[1]|F }}", "{{ zz(1)|F }}", "{{ zz(1|F) }}",
+				"{{ zz|F() }}", "{{ zz | F }}", "{{ zz|F:zz|F }}", "{{ 1 in zz|F }}", "{{ zz|F == 1 }}", "{{ (zz|F) }}", "{{ ((zz))|F }}", "{% macro zm(p=(1)|F) %}{% endmacro %}",
+				"{% with a=(zz)|F %}{% endwith %}", "{% set a = (zz)|F %}", "{% filter lower|F:(1) %}x{% endfilter %}", "{{ zz|F:1|F:2 }}", "{{ true|F }}", "{{ 1.5|F }}"} {
+				w := &world{banF: []string{f}}
+				a := w.args(strings.ReplaceAll(tpl, "F", f), nil)
+				a = append(a, hexList([]string{"verifprobe"}), hexList([]string{"verifprobetag"}), hx(f))
+				emit(caseT{"banspec", a})
+			}
+		}
 		// histories
 		nh := 500
 		maxLen := 8
@@ -147,7 +160,13 @@ func runC03(r *run) {
 			files := map[string]string{"a.tpl": "{{ \"x\"|upper }}", "b.tpl": "{% if 1 %}y{% endif %}{{ \"q\"|lower }}", "c.tpl": "{% include \"a.tpl\" %}", "bad.tpl": "{% if %}"}
 			var ops []string
 			for k := 0; k < 2+g.intn(maxLen-1); k++ {
-				switch g.intn(8) {
+				switch g.intn(11) {
+				case 8: // flushing the cache does not un-create the templates already handed out
+					ops = append(ops, g.pick([]string{"X:-", "X:-", "X:" + hxe("a.tpl")}))
+				case 9:
+					ops = append(ops, "D:"+g.pick([]string{"0", "1"}))
+				case 10:
+					ops = append(ops, "W:"+hxe("a.tpl")+":"+hxe("changed"))
 				case 0, 1:
 					ops = append(ops, "B:t:"+hxe(g.pick([]string{"if", "include", "for", "nosuch", "if"})))
 				case 2, 3:
@@ -169,7 +188,27 @@ func runC03(r *run) {
 	r.finish(nil)
 }
 
+func execBanSpec(r *run, c caseT) {
+	w, src, ctx := worldFromArgs(c.args)
+	name := unhx(c.args[9])
+
+	o, _ := w.render(src, false, ctx)
+	id := r.emit(c.op, c.args, "banspec:"+o.obs)
+	r.nontrivial(c.args[0] + c.args[9])
+	if o.panicked != nil {
+		r.reject(id, "panic", map[string]any{"template": src, "panic": fmt.Sprint(o.panicked)})
+		return
+	}
+	if o.obs != "cerr" {
+		r.reject(id, "a template that uses the banned name compiled", map[string]any{"template": src, "banned_filter": name, "observed": o.obs})
+	}
+}
+
 func execC03(r *run, c caseT) {
+	if c.op == "banspec" {
+		execBanSpec(r, c)
+		return
+	}
 	if c.op == "setops" {
 		files := parseFiles(c.args[0])[0]
 		ops := strings.Split(c.args[1], ";")
